@@ -432,64 +432,43 @@ def i_RRA(i_, fmap):
     fmap[sf] = tst(fmap[a] < 0, bit1, bit0)
 
 
-def i_RLC(i_, fmap):
-    fmap[pc] = fmap[pc] + i_.length
+def _rotshift_(i_, fmap, _x, _c):
+    # common part of the rotate/shift group: dst receives the 8-bit value _x
+    # (written as a whole, dst may be a register or a memory byte) and the
+    # carry flag receives _c.
     dst = i_.operands[0]
-    fmap[cf] = fmap[dst][7:8]
-    fmap[dst[1:8]] = fmap[dst][0:7]
-    fmap[dst[0:1]] = fmap[cf]
+    fmap[pc] = fmap[pc] + i_.length
+    fmap[cf] = _c
+    fmap[dst] = _x
     fmap[hf] = bit0
     fmap[nf] = bit0
-    fmap[zf] = tst(fmap[dst] == 0, bit1, bit0)
-    fmap[sf] = tst(fmap[dst] < 0, bit1, bit0)
+    fmap[zf] = tst(_x == 0, bit1, bit0)
+    fmap[sf] = _x[7:8]
+
+
+def i_RLC(i_, fmap):
+    _v = fmap(i_.operands[0])
+    _rotshift_(i_, fmap, composer([_v[7:8], _v[0:7]]), _v[7:8])
 
 
 def i_RL(i_, fmap):
-    fmap[pc] = fmap[pc] + i_.length
-    dst = i_.operands[0]
-    fmap[cf] = fmap[dst][7:8]
-    fmap[dst[1:8]] = fmap[dst][0:7]
-    fmap[dst[0:1]] = fmap[cf]
-    fmap[hf] = bit0
-    fmap[nf] = bit0
-    fmap[zf] = tst(fmap[dst] == 0, bit1, bit0)
-    fmap[sf] = tst(fmap[dst] < 0, bit1, bit0)
+    _v = fmap(i_.operands[0])
+    _rotshift_(i_, fmap, composer([fmap(cf), _v[0:7]]), _v[7:8])
 
 
 def i_RRC(i_, fmap):
-    fmap[pc] = fmap[pc] + i_.length
-    dst = i_.operands[0]
-    fmap[cf] = fmap[dst][0:1]
-    fmap[dst[0:7]] = fmap[dst][1:8]
-    fmap[dst[7:8]] = fmap[cf]
-    fmap[hf] = bit0
-    fmap[nf] = bit0
-    fmap[zf] = tst(fmap[dst] == 0, bit1, bit0)
-    fmap[sf] = tst(fmap[dst] < 0, bit1, bit0)
+    _v = fmap(i_.operands[0])
+    _rotshift_(i_, fmap, composer([_v[1:8], _v[0:1]]), _v[0:1])
 
 
 def i_RR(i_, fmap):
-    fmap[pc] = fmap[pc] + i_.length
-    dst = i_.operands[0]
-    fmap[cf] = fmap[dst][0:1]
-    fmap[dst[0:7]] = fmap[dst][1:8]
-    fmap[dst[7:8]] = fmap[cf]
-    fmap[hf] = bit0
-    fmap[nf] = bit0
-    fmap[zf] = tst(fmap[dst] == 0, bit1, bit0)
-    fmap[sf] = tst(fmap[dst] < 0, bit1, bit0)
+    _v = fmap(i_.operands[0])
+    _rotshift_(i_, fmap, composer([_v[1:8], fmap(cf)]), _v[0:1])
 
 
 def i_SLA(i_, fmap):
-    fmap[pc] = fmap[pc] + i_.length
-    dst = i_.operands[0]
-    fmap[cf] = fmap[dst][7:8]
-    fmap[dst[1:8]] = fmap[dst][0:7]
-    fmap[dst[0:1]] = bit0
-    fmap[hf] = bit0
-    fmap[nf] = bit0
-    fmap[zf] = tst(fmap[dst] == 0, bit1, bit0)
-    fmap[sf] = tst(fmap[dst] < 0, bit1, bit0)
+    _v = fmap(i_.operands[0])
+    _rotshift_(i_, fmap, composer([bit0, _v[0:7]]), _v[7:8])
 
 
 def i_SLL(i_, fmap):
@@ -497,38 +476,26 @@ def i_SLL(i_, fmap):
 
 
 def i_SRA(i_, fmap):
-    fmap[pc] = fmap[pc] + i_.length
-    dst = i_.operands[0]
-    fmap[cf] = fmap[dst][0:1]
-    fmap[dst[0:7]] = fmap[dst][1:8]
-    # dst[7:8] is unchanged
-    fmap[hf] = bit0
-    fmap[nf] = bit0
-    fmap[zf] = tst(fmap[dst] == 0, bit1, bit0)
-    fmap[sf] = tst(fmap[dst] < 0, bit1, bit0)
+    _v = fmap(i_.operands[0])
+    # bit 7 is unchanged
+    _rotshift_(i_, fmap, composer([_v[1:8], _v[7:8]]), _v[0:1])
 
 
 def i_SRL(i_, fmap):
-    fmap[pc] = fmap[pc] + i_.length
-    dst = i_.operands[0]
-    fmap[cf] = fmap[dst][0:1]
-    fmap[dst[0:7]] = fmap[dst][1:8]
-    fmap[dst[7:8]] = bit0
-    fmap[hf] = bit0
-    fmap[nf] = bit0
-    fmap[zf] = tst(fmap[dst] == 0, bit1, bit0)
-    fmap[sf] = bit0
+    _v = fmap(i_.operands[0])
+    _rotshift_(i_, fmap, composer([_v[1:8], bit0]), _v[0:1])
 
 
 def i_RLD(i_, fmap):
     fmap[pc] = fmap[pc] + i_.length
     _l = mem(hl, 8)
-    _b = fmap[_l]
-    fmap[_l[0:4]] = fmap[a[0:4]]
-    fmap[a[0:4]] = _b[4:8]
-    fmap[_l[4:8]] = _b[0:4]
-    fmap[zf] = tst(fmap[a] == 0, bit1, bit0)
-    fmap[sf] = tst(fmap[a] < 0, bit1, bit0)
+    _b = fmap(_l)
+    _a = fmap(a)
+    fmap[_l] = composer([_a[0:4], _b[0:4]])
+    _x = composer([_b[4:8], _a[4:8]])
+    fmap[a] = _x
+    fmap[zf] = tst(_x == 0, bit1, bit0)
+    fmap[sf] = _x[7:8]
     fmap[hf] = bit0
     fmap[nf] = bit0
 
@@ -536,12 +503,13 @@ def i_RLD(i_, fmap):
 def i_RRD(i_, fmap):
     fmap[pc] = fmap[pc] + i_.length
     _l = mem(hl, 8)
-    _b = fmap[_l]
-    fmap[_l[4:8]] = fmap[a[0:4]]
-    fmap[a[0:4]] = _b[0:4]
-    fmap[_l[0:4]] = _b[4:8]
-    fmap[zf] = tst(fmap[a] == 0, bit1, bit0)
-    fmap[sf] = tst(fmap[a] < 0, bit1, bit0)
+    _b = fmap(_l)
+    _a = fmap(a)
+    fmap[_l] = composer([_b[4:8], _a[0:4]])
+    _x = composer([_b[0:4], _a[4:8]])
+    fmap[a] = _x
+    fmap[zf] = tst(_x == 0, bit1, bit0)
+    fmap[sf] = _x[7:8]
     fmap[hf] = bit0
     fmap[nf] = bit0
 
